@@ -75,6 +75,20 @@ def model_expr(case):
     cut = '(Some %s)' % b64(float(v['cutoff'])) if 'cutoff' in v else 'None'
     return '(enc (init_cutoff %s %s %s))' % (nr, dr, cut)
 
+def _quot(vals):
+    """cutoff/dr for the input-distribution summary; None where either is not a finite positive float or the quotient is not finite"""
+    import math
+    try:
+        c, d = float(vals['cutoff']), float(vals['dr'])
+    except (ValueError, OverflowError):
+        return None
+    if not (math.isfinite(c) and math.isfinite(d) and d > 0): return None
+    try:
+        q = c / d
+    except (ZeroDivisionError, OverflowError):
+        return None
+    return q if math.isfinite(q) else None
+
 def correspond(ctx):
     rng = ctx['rng']
     cases = [gen_case(rng) for _ in range(1500 if ctx['thorough'] else 350)]
@@ -113,7 +127,7 @@ def correspond(ctx):
         if f: dis.append({'case': {'defaults_after': fam}, 'what': f[0]})
     dist = {'targets_checked': ntargets, 'combinations': {k: sum(1 for c in cases if '+'.join(sorted(c['vals'])) == k) for k in ('cutoff+dr', 'dr+nr', 'cutoff+nr', 'cutoff+dr+nr', 'dr', '', 'nr', 'cutoff')},
             'grids': {g: sum(1 for c in cases if c['grid'] == g) for g in ('r', 'rho')}, 'written_tables': len(tcases),
-            'max_rows': max([int(float(c['vals']['cutoff']) / float(c['vals']['dr'])) for c in cases if set(c['vals']) == {'cutoff', 'dr'} and float(c['vals']['dr']) > 0] or [0])}
+            'max_rows': max([int(q) for q in (_quot(c['vals']) for c in cases if set(c['vals']) == {'cutoff', 'dr'}) if q is not None] or [0])}
     return {'evaluations': len(cases) + len(tcases), 'cases': cases, 'nontrivial': core.distinct_count([c for c in cases if len(c['vals']) >= 2]),
             'rule': 'decimal steps 1e-4..0.5 x row counts 1..20000 (cutoff = k*step as an exact decimal), every two-of-three combination for the separation and the density grid, all-three / step-alone / non-positive inputs, '
                     'non-multiples: (nr, cutoff) of the parser compared bit for bit with the binary64 model; row counts of written GULP/setfl tables for commensurate pairs; non-trivial = at least two values given',
